@@ -84,4 +84,357 @@ theorem ungroupedGo_concat : ∀ (fuel off : Nat) (l : List (Kind × Char)) (ite
       rw [h2]
     | _ => simp [ungroupedGo] at h
 
+/-! ## The kind sequence `CharClasses` emits
+
+Code characters (`Normal`, `InString`) until a `StartComment`, then characters inside the comment
+until an `EndComment` (or the end of the text), and so on: the regular language below.  This is
+what keeps `UngroupedCommentCodeSlices::next` away from its `_ => panic!()` arm. -/
+
+/-- `KindsOk inComment ks`: `ks` is a suffix of such a sequence (`inComment` = a comment is open). -/
+def KindsOk : Bool → List Kind → Prop
+  | _, [] => True
+  | false, k :: ks =>
+    (k = .normal ∨ k = .inString) ∧ KindsOk false ks ∨ k = .startComment ∧ KindsOk true ks
+  | true, k :: ks =>
+    (k = .inComment ∨ k = .inStringCommented) ∧ KindsOk true ks ∨ k = .endComment ∧ KindsOk false ks
+
+/-- The states in which a comment is open. -/
+def commentState : Status → Bool
+  | .blockComment _ | .stringInBlockComment _ | .blockCommentOpening _
+  | .blockCommentClosing _ | .lineComment => true
+  | _ => false
+
+theorem step_kind (st : Status) (c : Char) (rest : List Char) (h : Ok st (c :: rest)) :
+    Ok (step st c rest).1 rest ∧
+    (commentState st = false →
+      ((step st c rest).2 = .normal ∨ (step st c rest).2 = .inString) ∧
+        commentState (step st c rest).1 = false ∨
+      (step st c rest).2 = .startComment ∧ commentState (step st c rest).1 = true) ∧
+    (commentState st = true →
+      ((step st c rest).2 = .inComment ∨ (step st c rest).2 = .inStringCommented) ∧
+        commentState (step st c rest).1 = true ∨
+      (step st c rest).2 = .endComment ∧ commentState (step st c rest).1 = false) := by
+  cases st <;> simp only [Ok, List.head?_cons, Option.some.injEq] at h <;>
+    simp only [step, step?, commentState] <;> (repeat' split) <;> simp_all [Ok] <;> omega
+
+theorem run_kindsOk : ∀ (s : List Char) (st : Status), Ok st s →
+    KindsOk (commentState st) ((run st s).map (·.1))
+  | [], _, _ => by simp [run, KindsOk]
+  | c :: rest, st, h => by
+    obtain ⟨hok, h1, h2⟩ := step_kind st c rest h
+    have ih := run_kindsOk rest (step st c rest).1 hok
+    simp only [run, List.map_cons]
+    cases hs : commentState st
+    · rcases h1 hs with ⟨hk, hn⟩ | ⟨hk, hn⟩
+      · rw [hn] at ih; exact Or.inl ⟨hk, ih⟩
+      · rw [hn] at ih; exact Or.inr ⟨hk, ih⟩
+    · rcases h2 hs with ⟨hk, hn⟩ | ⟨hk, hn⟩
+      · rw [hn] at ih; exact Or.inl ⟨hk, ih⟩
+      · rw [hn] at ih; exact Or.inr ⟨hk, ih⟩
+
+theorem classes_kindsOk (s : List Char) : KindsOk false ((classes s).map (·.1)) :=
+  run_kindsOk s .normal trivial
+
+/-! ## `UngroupedCommentCodeSlices` never reaches `panic!()` -/
+
+theorem takeCode_kinds : ∀ l : List (Kind × Char), KindsOk false (l.map (·.1)) →
+    (takeCode l).2 = [] ∨
+      ∃ c rest, (takeCode l).2 = (.startComment, c) :: rest ∧ KindsOk true (rest.map (·.1))
+  | [], _ => Or.inl rfl
+  | (k, c) :: rest, h => by
+    simp only [List.map_cons, KindsOk] at h
+    rcases h with ⟨hk, hr⟩ | ⟨hk, hr⟩
+    · have : k.isComment = false := by rcases hk with rfl | rfl <;> rfl
+      simp only [takeCode, this]
+      exact takeCode_kinds rest hr
+    · subst hk
+      exact Or.inr ⟨c, rest, by simp [takeCode, Kind.isComment], hr⟩
+
+theorem takeComment_kinds : ∀ l : List (Kind × Char), KindsOk true (l.map (·.1)) →
+    KindsOk false ((takeComment l).2.map (·.1))
+  | [], _ => by simp [takeComment, KindsOk]
+  | (k, c) :: rest, h => by
+    simp only [List.map_cons, KindsOk] at h
+    rcases h with ⟨hk, hr⟩ | ⟨hk, hr⟩
+    · have : k.insideComment = true := by rcases hk with rfl | rfl <;> rfl
+      simp only [takeComment, this]
+      exact takeComment_kinds rest hr
+    · subst hk
+      simpa [takeComment, Kind.insideComment] using hr
+
+theorem ungroupedGo_isSome : ∀ (fuel off : Nat) (l : List (Kind × Char)),
+    KindsOk false (l.map (·.1)) → (ungroupedGo fuel off l).isSome
+  | 0, _, _, _ => rfl
+  | _ + 1, _, [], _ => rfl
+  | fuel + 1, off, (k, c) :: rest, h => by
+    simp only [List.map_cons, KindsOk] at h
+    have code : KindsOk false (rest.map (·.1)) →
+        ((ungroupedGo fuel (off + utf8Len (c :: (takeCode rest).1)) (takeCode rest).2).map
+          (⟨.normal, off, c :: (takeCode rest).1⟩ :: ·)).isSome := by
+      intro hr
+      rcases takeCode_kinds rest hr with h0 | ⟨c', r', h1, h2⟩
+      · simp [h0, ungroupedGo_isSome fuel _ [] (by simp [KindsOk])]
+      · rw [h1]
+        have := ungroupedGo_isSome fuel (off + utf8Len (c :: (takeCode rest).1))
+          ((.startComment, c') :: r') (by simpa [KindsOk] using h2)
+        simpa using this
+    rcases h with ⟨hk, hr⟩ | ⟨hk, hr⟩
+    · rcases hk with rfl | rfl <;> simpa [ungroupedGo] using code hr
+    · subst hk
+      have := ungroupedGo_isSome fuel (off + utf8Len (c :: (takeComment rest).1))
+        (takeComment rest).2 (takeComment_kinds rest hr)
+      simpa [ungroupedGo] using this
+
+/-- `UngroupedCommentCodeSlices` returns slices for every text (no panic) … -/
+theorem ungrouped_isSome (s : List Char) : (ungrouped? s).isSome :=
+  ungroupedGo_isSome _ _ _ (classes_kindsOk s)
+
+/-- … and they concatenate to the text. -/
+theorem ungrouped_concat (s : List Char) (items : List Slice) (h : ungrouped? s = some items) :
+    items.flatMap (·.text) = s := by
+  have := ungroupedGo_concat s.length 0 (classes s) items (by simp [classes_length]) h
+  simpa [classes_map_snd] using this
+
+/-! ## `CommentCodeSlices` -/
+
+/-- A text that begins with a comment opener. -/
+def Opener (rest : List Char) : Prop :=
+  ∃ c2 t, rest = '/' :: c2 :: t ∧ (c2 = '/' ∨ c2 = '*')
+
+theorem step_startComment (st : Status) (c : Char) (rest : List Char)
+    (h : (step st c rest).2 = .startComment) : Opener (c :: rest) := by
+  cases st <;> simp only [step, step?] at h <;> (repeat' split at h) <;>
+    simp_all [Opener]
+
+/-- The first comment character after a run of code characters is a `StartComment`, and the text
+has a comment opener there. -/
+theorem run_first_comment : ∀ (s : List Char) (st : Status) (pre : List (Kind × Char))
+    (k0 : Kind) (c0 : Char) (post : List (Kind × Char)),
+    Ok st s → commentState st = false → run st s = pre ++ (k0, c0) :: post →
+    (∀ x ∈ pre, x.1.isComment = false) → k0.isComment = true →
+    Opener (s.drop pre.length)
+  | [], _, pre, _, _, _, _, _, h, _, _ => by
+    simp [run] at h
+  | c :: rest, st, [], k0, c0, post, hok, hcs, h, _, hk => by
+    simp only [run, List.nil_append, List.cons.injEq, Prod.mk.injEq] at h
+    obtain ⟨hok', h1, _⟩ := step_kind st c rest hok
+    rcases h1 hcs with ⟨hk', _⟩ | ⟨hk', _⟩
+    · rw [h.1.1] at hk'
+      rcases hk' with rfl | rfl <;> simp [Kind.isComment] at hk
+    · simpa using step_startComment st c rest hk'
+  | c :: rest, st, (k, c') :: pre, k0, c0, post, hok, hcs, h, hpre, hk => by
+    simp only [run, List.cons_append, List.cons.injEq, Prod.mk.injEq] at h
+    obtain ⟨hok', h1, _⟩ := step_kind st c rest hok
+    have hkc : k.isComment = false := hpre (k, c') (by simp)
+    rcases h1 hcs with ⟨_, hn⟩ | ⟨hk', _⟩
+    · have := run_first_comment rest _ pre k0 c0 post hok' hn h.2
+        (fun x hx => hpre x (by simp [hx])) hk
+      simpa using this
+    · rw [h.1.1] at hk'
+      subst hk'
+      simp [Kind.isComment] at hkc
+
+/-- The `for` loop when a Normal slice is sought (`last_slice_kind == Comment`): no connector, so
+it stops at the first comment character. -/
+theorem ccsScan_comment : ∀ (l : List (Kind × Char)) (i : Nat),
+    (∃ pre k0 c0 post, l = pre ++ (k0, c0) :: post ∧ (∀ x ∈ pre, x.1.isComment = false) ∧
+      k0.isComment = true ∧
+      ccsScan .comment false i none l = .broke (i + pre.length) none (!post.isEmpty)) ∨
+    ((∀ x ∈ l, x.1.isComment = false) ∧ ccsScan .comment false i none l = .finished none)
+  | [], i => Or.inr ⟨by simp, rfl⟩
+  | (k, c) :: rest, i => by
+    cases hk : k.isComment
+    · rcases ccsScan_comment rest (i + 1) with ⟨pre, k0, c0, post, h1, h2, h3, h4⟩ | ⟨h1, h2⟩
+      · refine Or.inl ⟨(k, c) :: pre, k0, c0, post, by simp [h1], ?_, h3, ?_⟩
+        · intro x hx
+          rcases List.mem_cons.mp hx with rfl | hx
+          · exact hk
+          · exact h2 x hx
+        · simp only [ccsScan, Kind.toCodeCharKind, hk]
+          simp [h4]; omega
+      · refine Or.inr ⟨?_, ?_⟩
+        · intro x hx
+          rcases List.mem_cons.mp hx with rfl | hx
+          · exact hk
+          · exact h1 x hx
+        · simp only [ccsScan, Kind.toCodeCharKind, hk]
+          simp [h2]
+    · refine Or.inl ⟨[], k, c, rest, rfl, by simp, hk, ?_⟩
+      simp [ccsScan, Kind.toCodeCharKind, hk]
+
+
+theorem ccsNext_comment (rest : List Char) :
+    ∃ n, ccsNext? .comment rest = some n ∧ (rest.drop n = [] ∨ Opener (rest.drop n)) := by
+  have hne : (CodeCharKind.comment == CodeCharKind.normal) = false := by decide
+  rcases ccsScan_comment (classes rest) 0 with ⟨pre, k0, c0, post, h1, h2, h3, h4⟩ | ⟨_, h2⟩
+  · have hop : Opener (rest.drop pre.length) :=
+      run_first_comment rest .normal pre k0 c0 post trivial rfl h1 h2 h3
+    unfold ccsNext?
+    simp only [hne, Bool.false_eq_true, if_false, h4, Nat.zero_add, Option.getD_none]
+    by_cases hz : (pre.length == 0 && !!post.isEmpty) = true
+    · exact ⟨rest.length, by rw [if_pos hz], Or.inl (by simp)⟩
+    · exact ⟨pre.length, by rw [if_neg hz], Or.inr hop⟩
+  · refine ⟨rest.length, ?_, Or.inl (by simp)⟩
+    unfold ccsNext?
+    simp only [hne, Bool.false_eq_true, if_false, h2]
+
+/-- Lower bound on the indices the `for` loop returns. -/
+def ScanGe (lo : Nat) : Scan → Prop
+  | .broke k fw _ => lo ≤ k ∧ ∀ j, fw = some j → lo ≤ j
+  | .finished fw => ∀ j, fw = some j → lo ≤ j
+
+theorem ccsScan_bounds (lk : CodeCharKind) (ss : Bool) : ∀ (l : List (Kind × Char)) (i : Nat)
+    (fw : Option Nat) (lo : Nat), lo ≤ i → (∀ j, fw = some j → lo ≤ j) →
+    ScanGe lo (ccsScan lk ss i fw l)
+  | [], i, fw, lo, _, hfw => by simpa [ccsScan, ScanGe] using hfw
+  | (k, c) :: rest, i, fw, lo, hi, hfw => by
+    unfold ccsScan
+    generalize (lk == CodeCharKind.normal && ss && (c == ' ' || c == '\t')) = conn
+    have hfw1 : ∀ j, (if (conn && fw.isNone) = true then some i else fw) = some j → lo ≤ j := by
+      intro j hj
+      split at hj
+      · simp at hj; omega
+      · exact hfw j hj
+    simp only []
+    split
+    · exact ⟨hi, hfw1⟩
+    · apply ccsScan_bounds lk ss rest (i + 1) _ lo (by omega)
+      intro j hj
+      split at hj
+      · exact hfw1 j hj
+      · simp at hj
+
+theorem ccsNext_normal (rest : List Char) (h : Opener rest) :
+    ∃ n, ccsNext? .normal rest = some n ∧ 2 ≤ n := by
+  obtain ⟨c2, t, rfl, hc2⟩ := h
+  have hss : prefixIsSlashSlash? ('/' :: c2 :: t) = some (c2 == '/') := by
+    rcases hc2 with rfl | rfl <;> simp [prefixIsSlashSlash?] <;> decide
+  have hcl : ∃ l2, classes ('/' :: c2 :: t) = (.startComment, '/') :: (.inComment, c2) :: l2 := by
+    rcases hc2 with rfl | rfl
+    · exact ⟨run .lineComment t, by simp [classes, run, step, step?]⟩
+    · exact ⟨run (.blockComment 1) t, by simp [classes, run, step, step?]⟩
+  obtain ⟨l2, hl2⟩ := hcl
+  have hc2b : (c2 == ' ' || c2 == '\t') = false := by rcases hc2 with rfl | rfl <;> decide
+  have hscan : ccsScan .normal (c2 == '/') 0 none ((.startComment, '/') :: (.inComment, c2) :: l2)
+      = ccsScan .normal (c2 == '/') 2 none l2 := by
+    simp [ccsScan, Kind.toCodeCharKind, Kind.isComment, hc2b]
+  have hb := ccsScan_bounds .normal (c2 == '/') l2 2 none 2 (by omega) (by simp)
+  unfold ccsNext?
+  have hnn : (CodeCharKind.normal == CodeCharKind.normal) = true := by decide
+  simp only [hnn, if_true, hss, hl2, hscan]
+  cases hsc : ccsScan .normal (c2 == '/') 2 none l2 with
+  | broke k fw more =>
+    rw [hsc] at hb
+    have hli : 2 ≤ fw.getD k := by
+      cases fw with
+      | none => simpa using hb.1
+      | some w => simpa using hb.2 w rfl
+    have : (fw.getD k == 0 && !more) = false := by
+      have : (fw.getD k == 0) = false := by simp; omega
+      simp [this]
+    exact ⟨fw.getD k, by simp [this], hli⟩
+  | finished fw =>
+    rw [hsc] at hb
+    cases fw with
+    | none => exact ⟨_, rfl, by simp⟩
+    | some w => exact ⟨w, rfl, hb w rfl⟩
+
+
+/-- What `CommentCodeSlices` can hold between two calls of `next`: after a Normal slice the rest is
+empty or begins with a comment opener. -/
+def CcsInv (lk : CodeCharKind) (rest : List Char) : Prop :=
+  lk = .normal → rest = [] ∨ Opener rest
+
+/-- Calls of `next` still needed (upper bound). -/
+def ccsMeasure (lk : CodeCharKind) (rest : List Char) : Nat :=
+  if rest = [] then 0 else 2 * rest.length + (if lk = .comment then 1 else 0)
+
+/-- One `next` from a reachable state: no panic, the invariant is kept, the measure decreases. -/
+theorem ccsNext_step (lk : CodeCharKind) (rest : List Char) (hne : rest ≠ []) (hinv : CcsInv lk rest) :
+    ∃ n, ccsNext? lk rest = some n ∧ CcsInv (flipKind lk) (rest.drop n) ∧
+      ccsMeasure (flipKind lk) (rest.drop n) + 1 ≤ ccsMeasure lk rest := by
+  have hpos : 0 < rest.length := List.length_pos_iff.mpr hne
+  cases lk with
+  | comment =>
+    obtain ⟨n, hn, hinv'⟩ := ccsNext_comment rest
+    refine ⟨n, hn, fun _ => hinv', ?_⟩
+    simp only [ccsMeasure, flipKind, hne, if_false]
+    split
+    · simp
+    · simp only [List.length_drop]
+      simp; omega
+  | normal =>
+    rcases hinv rfl with h | h
+    · exact absurd h hne
+    · obtain ⟨n, hn, h2⟩ := ccsNext_normal rest h
+      refine ⟨n, hn, fun h => by simp [flipKind] at h, ?_⟩
+      simp only [ccsMeasure, flipKind, hne, if_false]
+      split
+      · simp; omega
+      · rename_i hd
+        have : n < rest.length := by
+          by_cases hc : n < rest.length
+          · exact hc
+          · exact absurd (List.drop_eq_nil_of_le (by omega)) hd
+        simp only [List.length_drop]
+        simp; omega
+
+/-- Kinds alternate, starting with `k`. -/
+def Alternates : CodeCharKind → List Slice → Prop
+  | _, [] => True
+  | k, s :: t => s.kind = k ∧ Alternates (flipKind k) t
+
+/-- Every slice starts where the previous one ended (byte offsets). -/
+def Contiguous : Nat → List Slice → Prop
+  | _, [] => True
+  | off, s :: t => s.start = off ∧ Contiguous (off + utf8Len s.text) t
+
+theorem ccsGo_spec : ∀ (fuel : Nat) (lk : CodeCharKind) (off : Nat) (rest : List Char),
+    CcsInv lk rest → ccsMeasure lk rest ≤ fuel →
+    ∃ items, ccsGo fuel lk off rest = some items ∧ items.flatMap (·.text) = rest ∧
+      Alternates (flipKind lk) items ∧ Contiguous off items
+  | 0, lk, off, rest, _, hm => by
+    have : rest = [] := by
+      by_cases hne : rest = []
+      · exact hne
+      · have : 0 < rest.length := List.length_pos_iff.mpr hne
+        simp [ccsMeasure, hne] at hm
+        omega
+    subst this
+    exact ⟨[], rfl, rfl, trivial, trivial⟩
+  | fuel + 1, lk, off, rest, hinv, hm => by
+    by_cases hne : rest = []
+    · subst hne
+      exact ⟨[], rfl, rfl, trivial, trivial⟩
+    · obtain ⟨n, hn, hinv', hdec⟩ := ccsNext_step lk rest hne hinv
+      obtain ⟨tl, htl, hcat, halt, hcont⟩ :=
+        ccsGo_spec fuel (flipKind lk) (off + utf8Len (rest.take n)) (rest.drop n) hinv' (by omega)
+      refine ⟨⟨flipKind lk, off, rest.take n⟩ :: tl, ?_, ?_, ⟨rfl, halt⟩, ⟨rfl, hcont⟩⟩
+      · have : rest.isEmpty = false := by simpa using hne
+        simp [ccsGo, this, hn, htl]
+      · simp [hcat]
+
+
+/-- `CommentCodeSlices::new(s)` collected: no panic, the slices concatenate to `s`, their kinds
+alternate starting with `Normal`, and each starts at the byte where the previous one ended. -/
+theorem slices_spec (s : List Char) :
+    ∃ items, commentCodeSlices? s = some items ∧ items.flatMap (·.text) = s ∧
+      Alternates .normal items ∧ Contiguous 0 items := by
+  apply ccsGo_spec (2 * s.length + 2) .comment 0 s (fun h => by simp at h)
+  simp only [ccsMeasure]
+  split <;> simp <;> omega
+
+theorem ungroupedGo_contiguous : ∀ (fuel off : Nat) (l : List (Kind × Char)) (items : List Slice),
+    ungroupedGo fuel off l = some items → Contiguous off items
+  | 0, _, _, items, h => by
+    simp [ungroupedGo] at h; subst h; trivial
+  | _ + 1, _, [], items, h => by
+    simp [ungroupedGo] at h; subst h; trivial
+  | fuel + 1, off, (k, c) :: rest, items, h => by
+    cases k <;> simp only [ungroupedGo, Option.map_eq_some_iff, reduceCtorEq] at h
+    all_goals
+      obtain ⟨tl, htl, rfl⟩ := h
+      exact ⟨rfl, ungroupedGo_contiguous fuel _ _ tl htl⟩
+
+
 end RF.Lemmas.Comment
